@@ -22,15 +22,21 @@ def trOf (s : String) : Tr :=
 
 def appOf (j : Json) : App := ⟨jN (jAt j 0), jN (jAt j 1), trOf (jS (jAt j 2))⟩
 
-def memberOf (j : Json) : MemberDef :=
+/-- an application: `[type, value, transformation]` (`@factory(value)` written on the spot) or `["conf", k]` — the k-th configured
+    decorator of the case's history of factory calls, stored and applied here -/
+def appOfC (confs : Confs) (j : Json) : App :=
+  if jTag j == "conf" then (configured confs (jN (jAt j 1))).getD ⟨0, 0, .none⟩ else appOf j
+
+def memberOf (confs : Confs) (j : Json) : MemberDef :=
   match jTag j with
-  | "func" => .func (match jS (jAt j 1) with | "static" => .static | "cls" => .cls | _ => .inst) ((jL (jAt j 2)).map appOf)
+  | "func" => .func (match jS (jAt j 1) with | "static" => .static | "cls" => .cls | _ => .inst) ((jL (jAt j 2)).map (appOfC confs))
   | "raising" => .raising (jS (jAt j 1))
   | _ => .other (jN (jAt j 1)) ((jL (jAt j 2)).map kvOf)
 
-def nsEntryOf (j : Json) : PedVerif.Mixins.Name × MemberDef := (⟨jN (jAt j 0), jS (jAt j 1)⟩, memberOf (jAt j 2))
+def nsEntryOf (confs : Confs) (j : Json) : PedVerif.Mixins.Name × MemberDef := (⟨jN (jAt j 0), jS (jAt j 1)⟩, memberOf confs (jAt j 2))
 
-def clsOf (j : Json) : Cls := { bases := (jL (jF j "bases")).map baseOf, ns := (jL (jF j "ns")).map nsEntryOf }
+def clsOf (confs : Confs) (j : Json) : Cls :=
+  { bases := (jL (jF j "bases")).map baseOf, ns := (jL (jF j "ns")).map (nsEntryOf confs) }
 
 def siteS : Site → String
   | .nonGeneric => "nonGeneric" | .unparam => "unparam" | .noneArgs => "noneArgs" | .originBases => "originBases"
@@ -111,9 +117,11 @@ def handleHistory (t : Table) (d : Nat) (c : Json) : Json :=
 
 /-- case: {"k": "generic"|"decorated"|"history", "table": [user classes…] (ids start after the library classes; a class may carry
     "cgi" / "eq" flags that only the Python side reads), "cls": id, "orig": null | [type args],
-    "enums": [[type id, {"members": [...], "clsattrs": [[k, v]…]}]…]; history: "insts": [[cls, orig]…], "qs": [index…]} -/
+    "enums": [[type id, {"members": [...], "clsattrs": [[k, v]…]}]…], "confs": [[type, value, transformation]…] (the factory calls
+    `factory(value)` of the program in the order in which they are made; applications refer to them as ["conf", k]); history: "insts": [[cls, orig]…], "qs": [index…]} -/
 def handle (c : Json) : Json :=
-  let user : Table := (jL (jF c "table")).map clsOf
+  let confs : Confs := (jL (jF c "confs")).map appOf
+  let user : Table := (jL (jF c "table")).map (clsOf confs)
   let t : Table := libTable ++ user
   let d := t.length + 1
   if jS (jF c "k") == "history" then handleHistory t d c else
